@@ -388,7 +388,13 @@ def c11_specs():
                             for any_ in (False, True, "nolist"):
                                 # "nolist": a hybrid any_inputs destination model without trigger / non-trigger lists
                                 yield {"sg": sg, "dg": dg, "pairs": [{"sk": a, "dk": b} for a, b in pairs], "shift": shift, "weak": weak,
-                                       "init": init, "any": bool(any_), "nolist": any_ == "nolist"}
+                                       "init": init, "any": bool(any_), "nolist": any_ == "nolist", "child": ""}
+                                # the source / the destination entity is a CHILD of a non-public second model of its simulator with
+                                # attributes of its own; kind "none" then is a name that only the PARENT's model has
+                                if len(pairs) == 1 and shift < 2:
+                                    for child in ("src", "dst"):
+                                        yield {"sg": sg, "dg": dg, "pairs": [{"sk": a, "dk": b} for a, b in pairs], "shift": shift, "weak": weak,
+                                               "init": init, "any": bool(any_), "nolist": any_ == "nolist", "child": child}
 
 
 def _obs(ctx, requests=False):
@@ -418,10 +424,22 @@ def _c11_row(spec):
         scn["sims"][1]["meta"] = meta
     res = {}
 
+    child = spec.get("child", "")
+    if child == "src":
+        scn["sims"][0]["children"] = True
+    elif child == "dst":
+        scn["sims"][1]["children"] = "nolist" if spec.get("nolist") else True
+    sk_names = {"pers": "pk", "event": "ek", "none": "p"} if child == "src" else SK
+    dk_names = {"trig": "tik", "nontrig": "ik", "none": "i"} if child == "dst" else DK
+
     def attempt(ctx, only=None, res=res):
         w = ctx.world
         src, dst = ctx.ents["Sa"][0], ctx.ents["Sb"][0]
-        pairs = [(SK[p["sk"]], DK[p["dk"]]) for i, p in enumerate(spec["pairs"]) if only is None or (i + 1) in only]
+        if child == "src":
+            src = src.children[0]
+        elif child == "dst":
+            dst = dst.children[0]
+        pairs = [(sk_names[p["sk"]], dk_names[p["dk"]]) for i, p in enumerate(spec["pairs"]) if only is None or (i + 1) in only]
         if not pairs:
             return
         kw = {}
@@ -503,7 +521,7 @@ def c11(tier, seed):
         "evaluations": len(rows), "distinct_nontrivial": len(rows),
         "rule": "cross product of 6x6 placements of source/destination in the group tree (root, [1], [1,2], [3], [1,4], [3,5]: same group, parent/child, "
                 "siblings, cousins) x 9 single attribute pairs (persistent/event/not-an-output x trigger/non-trigger/not-an-input) + 5 multi-pair calls x "
-                "time_shifted in {False, True, 2} x weak x initial data x any_inputs (off / on / on for a hybrid model without trigger lists); each row is one real World.connect() call; rejected calls are followed by "
+                "time_shifted in {False, True, 2} x weak x initial data x any_inputs (off / on / on for a hybrid model without trigger lists) x (source / destination entity a child of a non-public second model); each row is one real World.connect() call; rejected calls are followed by "
                 "a run whose per-simulator (time, inputs) sequences are compared with the scenario in which only the accepted pairs of the call are connected",
         "exhaustive": True,
         "outcomes": dict(collections.Counter(r["out"] for r in rows)),
